@@ -171,6 +171,18 @@ func H_C16_args() {
 func H_C16_template() {
 	maxLen := 4 + verif.Tier()
 	t := verif.Str("t", maxLen, "$1'\"`-/*#\n e\\") // the letter is e: e'...' is an escape string for the sanitizer's lexer
+	checkTemplate(t)
+}
+
+// H_C16_comments: a block comment with any short body over asterisks,
+// slashes, blanks, quotes and a placeholder, followed by a placeholder: the
+// placeholder inside the comment is left alone, the one after it is replaced.
+func H_C16_comments() {
+	body := verif.Str("body", 3+verif.Tier(), "*/ '$1")
+	checkTemplate("/*" + body + "*/$1")
+}
+
+func checkTemplate(t string) {
 	tpl := "SELECT " + t + " FROM x"
 	out, err := SanitizeSQL(tpl, "Z")
 	class, _, start, end, _ := verif.MySQLScan(tpl)
@@ -212,6 +224,17 @@ func H_C16_template() {
 	// is MySQL: templates using the constructs that differ are classified so
 	// that each known difference is reported under its own label
 	class_ := ""
+	// a second comment opener after the first one: nesting (decided first)
+	openers := 0
+	for i := 0; i+1 < len(t); i++ {
+		if t[i] == '/' && t[i+1] == '*' {
+			openers++
+			i++
+		}
+	}
+	if openers >= 2 {
+		class_ = "/nested-comment"
+	}
 	for i := 0; i < len(t); i++ {
 		switch {
 		case t[i] == '`':
